@@ -37,9 +37,10 @@ META = {
 
 INV = ["TypeOK", "ConcurrencyBound", "InOrder", "OnePerStatement", "FailFastFirst", "FutureAtMostOnce", "FutureCompleted",
        "NotStuck"]
-WITNESSES = ["SyncChain", "WaitAndWake", "FailFastWhileRunning", "FutureByCaller", "GenWaits", "FullConcurrency"]
+WITNESSES = ["SyncChain", "WaitAndWake", "FailFastWhileRunning", "FutureByCaller", "GenWaits", "FullConcurrency",
+             "ConsumerBeforeLoopReturn"]
 ALL_BEHS = {"raise", "done_ok", "done_err", "later_ok", "later_err"}
-ACTIONS = ("EmptyCall", "BeginSubmit", "Start", "Put", "Ret", "FutCheck", "CompleteAny", "Collect", "Wake", "Consume", "GWake")
+ACTIONS = ("EmptyCall", "BeginSubmit", "Start", "Put", "Ret", "FutCheck", "LoopReturn", "CompleteAny", "Collect", "Wake", "Consume", "GWake")
 
 
 def consts(maxn):
